@@ -102,7 +102,7 @@ void *value_from_spec(asn_TYPE_descriptor_t *td, const std::string &spec) {
     if(spec.rfind("bulk:", 0) == 0) {          // bulk:<template>:<units> - one big payload, from the XER templates of sim/bulk.h
         size_t c = spec.rfind(':');
         std::string name = spec.substr(5, c - 5); size_t k = (size_t)strtoull(spec.c_str() + c + 1, 0, 10);
-        for(int i = 0; i < NBULK; i++) if(name == BULKS[i].name && std::string(td->name) == BULKS[i].type) return value_from_xer(td, BULKS[i].xer(k));
+        for(int i = 0; i < NBULK; i++) if(name == BULKS[i].name && BULKS[i].xer && std::string(td->name) == BULKS[i].type) return value_from_xer(td, BULKS[i].xer(k));
         return nullptr;
     }
     if(spec.rfind("nest:", 0) == 0) {          // nest:<template>:<depth> - a deeply nested value, decoded from the nest templates of sim/nest.h
@@ -146,7 +146,7 @@ ValueChoice choose_value(uint64_t run_seed, size_t max_budget) {
     c.td = choose_type(rt);
     // now and then (1 run in 16, on programs that have such types): a value with one big payload, enough for several 16K PER
     // fragments and multi-octet length determinants in every syntax
-    static std::vector<int> bulk_here = [] { std::vector<int> v; for(int i = 0; i < NBULK; i++) if(pdu_by_name(BULKS[i].type)) v.push_back(i); return v; }();
+    static std::vector<int> bulk_here = [] { std::vector<int> v; for(int i = 0; i < NBULK; i++) if(BULKS[i].xer && pdu_by_name(BULKS[i].type)) v.push_back(i); return v; }();
     if(!bulk_here.empty() && max_budget >= 160 && rv.chance(1, 16)) {
         static const size_t ks[] = {20000, 40000, 70000};
         const Bulk &b = BULKS[bulk_here[rv.below(bulk_here.size())]];
